@@ -134,6 +134,13 @@ def run_case(desc):
     clf = factory(declared, ml, cm_declared, int(desc["seed"] % 1000))
     ctx = "clf=%s declared classes=%r regime=%s n=%d labelled=%d weights=%s cost=%s" % (name, declared, regime, n, int(lab.sum()), desc["weights"], desc["cost"])
     import inspect
+    # feature dtype / layout a caller may well have: single precision, Fortran order
+    xkind = ["f64", "f64", "f32", "fortran"][(desc["seed"] >> 14) % 4]
+    if xkind == "f32":
+        X = X.astype(np.float32)
+    elif xkind == "fortran":
+        X = np.asfortranarray(X)
+    ctx += " X=%s" % xkind
 
     def _fit(method, Xa, ya, wa):
         fn = getattr(clf, method)
@@ -167,6 +174,8 @@ def run_case(desc):
     stats = {"predict_calls": 0, "decision_checked": 0}
     if path is not None:
         Xq = [X, gen.make_X(rng, 5, d, "normal"), gen.make_X(rng, 3, d, "normal") * 1e3 + 500.0]
+        if xkind == "f32":
+            Xq = [q.astype(np.float32) for q in Xq]
         if regime == "separated":
             centres = np.zeros((K, d))
             centres[:, 0] = 100.0 * np.arange(K)
